@@ -1,5 +1,6 @@
 import Dreye.Driver.Parse
 import Dreye.Driver.Ops01
+import Dreye.Driver.Ops02
 namespace Dreye.Driver
-def allOps : List (String × Handler) := ops01
+def allOps : List (String × Handler) := ops01 ++ ops02
 end Dreye.Driver
